@@ -29,7 +29,7 @@ TAG_UNIVERSE = {
 OPS = ["o1", "o2", "o3", "o4"]
 KEYSEQ = {o: ["k%s%s" % (o[1:], sfx) for sfx in ("", "b", "c", "d")] for o in OPS}
 GENVALS = ["o1", "o2", "o3"]
-DEV = ["L13hold", "L13rev", "NOHOOK", "VALKEYS"]   # deviations of the CURRENT tree (strict-lane reference = code's behaviour)
+DEV = ["L13hold", "L13rev", "VALKEYS"]   # deviations of the CURRENT tree (strict-lane reference = code's behaviour)
 H0, EP0, SEQ0, LZN0, UNBH = 2, 1, 3, 100, 10
 ASSETS = ["lst", "lst2"]          # LST assets used by the noise generator
 ALL_ASSETS = ["lst", "lst2", "nst"]  # the world also has the native-restaking asset (NST, 18 decimals)
